@@ -50,7 +50,8 @@ def builders():
         # the speed field holds three characters: "x.y" below 10, an integer from 10 on; values that only reach 10 after rounding
         # to a tenth (9.95 .. 9.99) belong to the second form
         speeds = [0.0, 0.01, 0.04, 0.05, 0.1, 5.0, 9.9, 9.94, 9.95, 9.96, 9.99, 10.0, 10.4, 12.0, 99.0, 99.4, 99.6, 100.0, 999.0, 999.4, 999.5,
-                  999.9, float(r.randrange(0, 1000)), r.randrange(1, 100) / 10, round(r.uniform(9.9, 10.1), 3), round(r.uniform(0, 999.9), 2)]
+                  999.9, 0, 7, 12, 999,      # whole-number speeds given as int, as the parser itself stores a null speed
+                  float(r.randrange(0, 1000)), r.randrange(1, 100) / 10, round(r.uniform(9.9, 10.1), 3), round(r.uniform(0, 999.9), 2)]
         spd = speeds[n % len(speeds)]
         # the legal values whose text is all zeros or collides with an "absent" sentinel: midnight, the first day of 2000
         tm = [datetime.time(0, 0, 0), datetime.time(0, 0, 1), datetime.time(23, 59, 59), datetime.time(10, 0, 0),
